@@ -56,6 +56,13 @@ package scen
 // their parked calls released, their streams reset and 5 min of virtual time
 // before the census counts; B only runs while nothing is parked, i.e. it never
 // includes time the SUT spent waiting for the environment.
+//
+// Replayability: several components resolve multi-way selects, map iterations
+// or lock races in the Go runtime (every outcome legal). Each scenario keeps
+// its schedule menu out of the states where that would change what reaches
+// the seams; the comments next to mayStart / mayClose / prio / enabled /
+// tickQuietOnly and in the scenarios say which state and why. Debugging aid:
+// C14_DEBUG=1 adds the parked set to the trace at every decision.
 
 import (
 	"context"
